@@ -298,19 +298,20 @@ _TRACE = ["-fsanitize-coverage=trace-pc"]
 # two scopes: the utility translation units are traced only for the primitives (fp_is_zero & co. live there and are data dependent by design);
 # the regular algorithms are traced in their own bodies only
 _CT_PRIM_TUS = [("src/dv/relic_dv_util.c", _TRACE), ("src/relic_util.c", _TRACE), ("src/fp/relic_fp_util.c", _TRACE)]
-_CT_TUS = [("src/ep/relic_ep_mul.c", _TRACE), ("src/epx/relic_ep2_mul.c", _TRACE), ("src/eb/relic_eb_mul.c", _TRACE), ("src/bn/relic_bn_mxp.c", _TRACE),
+_CT_TUS = [("src/ep/relic_ep_mul.c", _TRACE), ("src/epx/relic_ep2_mul.c", _TRACE), ("src/eb/relic_eb_mul.c", _TRACE), ("src/bn/relic_bn_mxp.c", _TRACE), ("src/ed/relic_ed_mul.c", _TRACE), ("src/fb/relic_fb_exp.c", _TRACE),
            ("src/fp/relic_fp_exp.c", _TRACE), ("src/pc/relic_pc_exp.c", _TRACE)]
 PROPS["C20"] = {
     "level": "model_checking",
     "technique": "exhaustive self-composition by enumeration: the real routines, recompiled with -fsanitize-coverage=trace-pc at the shipped optimisation level, are run on every secret of a complete tiny secret space (every k in [1, n-1] on three 16-bit curves, every exponent of a fixed bit length) and on structured 256/283-bit alphabets; the basic-block trace must be identical to that of a reference secret and the result must equal the specification",
     "level_text": "Observation = sequence of basic-block PCs of the algorithm translation units (ep_mul, ep2_mul, eb_mul, bn_mxp, fp_exp, pc_exp, bn_rec, dv_util, util, fp_util). Complete: every scalar 1..n-1 on three tiny curves (plain a=-3, GLV, generic a) for ep_mul_monty, ep_mul_lwreg and the output length of bn_rec_reg; every 12-bit and every 16-bit exponent for bn_mxp_monty / fp_exp_monty; every pair from a digit alphabet x every position x both condition bits x sizes 0..4 for dv_copy_sec, dv_swap_sec, dv_cmp_sec, util_cmp_sec, fp_copy_sec. Alphabets (Hamming weight 1/2, runs of ones/zeros, n-1, n/2, small, dense): the six 256-bit curves, ep2_mul_monty/lwreg, g1_mul_sec, g2_mul_sec, gt_exp_sec on BN_P256, eb_mul_lodah / eb_mul_rwnaf on NIST B-283 and K-283. Controls: ep_mul_lwnaf, bn_mxp_slide, dv_cmp must show more than one trace over the same secrets (reported per shard in the evidence notes).",
-    "level_note": "Limits: timing and micro-architectural effects, data flow inside a basic block, other compilers/flags, and the field layer below the group level (callees in other translation units are not traced; the caller's block sequence fixes which calls are made). Edwards routines are checked only in the 255-bit world (thorough).",
+    "level_note": "Limits: timing and micro-architectural effects, data flow inside a basic block, other compilers/flags, and the field layer below the group level (callees in other translation units are not traced; the caller's block sequence fixes which calls are made). Edwards routines (ed_mul_monty, ed_mul_lwreg; control ed_mul_lwnaf) are checked in the 255-bit build on Ed25519; binary-field exponentiation (fb_exp_monty; control fb_exp_slide) on exponents of one fixed length.",
     "rule": "a case is (routine, curve, reference secret, secret); complete secret ranges by odometer; all non-trivial; states = secrets of the complete tiny spaces; transitions = basic blocks recorded and compared.",
     "assumptions": ["basic-block trace equality as the observable", "generator re-seeded identically before both runs so blinding is the same public input"],
     "jobs": [
         {"name": "ct-prim-w8", "world": "W8", "src": "props/C20_ct.c", "retu": _CT_PRIM_TUS, "defs": ["CT_PRIM"], "share": 0.1},
         {"name": "ct-prim-w64", "world": "W64", "src": "props/C20_ct.c", "retu": _CT_PRIM_TUS, "defs": ["CT_PRIM"], "share": 0.1},
         {"name": "ct-reg-w8", "world": "W8", "src": "props/C20_ct.c", "retu": _CT_TUS, "defs": ["CT_REG"], "share": 0.5},
-        {"name": "ct-reg-w64", "world": "W64", "src": "props/C20_ct.c", "retu": _CT_TUS, "defs": ["CT_REG"]},
+        {"name": "ct-reg-w64", "world": "W64", "src": "props/C20_ct.c", "retu": _CT_TUS, "defs": ["CT_REG"], "share": 0.5},
+        {"name": "ct-reg-w64-255", "world": "W64-255", "src": "props/C20_ct.c", "retu": _CT_TUS, "defs": ["CT_REG"]},
     ],
 }
